@@ -158,6 +158,9 @@ class Gen:
         rnd = self.rnd
         ncols = rnd.randint(2, 4)
         nrows = rnd.randint(2, 4)
+        if rnd.random() < 0.1:
+            # a table with a single column and / or a single row
+            ncols, nrows = rnd.choice(((1, 1), (1, 3), (3, 1), (1, 2), (2, 1)))
         header = rnd.random() < 0.6
         rows = []
         for r in range(nrows):
@@ -176,6 +179,8 @@ class Gen:
                 elif rnd.random() < 0.12 and self.budget_left():
                     content = ("blocks", [("list", rnd.choice(("ul", "ol")),
                                            [(self.inline(0, False, hi=2), None) for _ in range(rnd.randint(1, 3))], "wiki")])
+                elif rnd.random() < 0.06 and c > 0:
+                    content = ("inline", [])       # a cell left blank
                 else:
                     content = ("inline", self.inline(0, allow_ref=rnd.random() < 0.2, hi=3))
                 cells.append((header and r == 0, content))
